@@ -37,7 +37,8 @@ TraceInit ==
 
 \* a queue is created with exactly the mechanisms the scenario asked for
 TReset == /\ Is("Reset")
-          /\ ResetTo([n |-> Ev.n, indirect |-> Ev.ind, eventIdx |-> Ev.ev, ap |-> Ev.ap])
+          /\ ResetTo([n |-> Ev.n, indirect |-> Ev.ind, eventIdx |-> Ev.ev, ap |-> Ev.ap,
+                      adv |-> Has(Ev, "adv") /\ Ev.adv])
 
 \* C06: rings are zeroed when the queue is registered
 TInitLinks == Is("InitLinks") /\ Ev.rings_zero /\ Ev.n = N /\ UNCHANGED vars
@@ -84,20 +85,30 @@ TSN == Is("SN") /\ ShouldNotifyCalled
 
 \* device steps; the recorder's own parse of the chain must agree with the specification's
 TDevTake == /\ Is("DevTake")
-            /\ DevTake(Ev.h)
-            /\ Ev.ok
-            /\ LET p == Parse(Ev.h) IN p.ok /\ p.elems = ToElems(Ev.elems)
+            /\ IF Adv THEN DevTakeAny(Ev.h)
+               ELSE /\ DevTake(Ev.h)
+                    /\ Ev.ok
+                    /\ LET p == Parse(Ev.h) IN p.ok /\ p.elems = ToElems(Ev.elems)
 TDevElem == /\ Is("DevElem")
             /\ IF Has(Ev, "raw") THEN DevUsedElem(Ev.s, Ev.idn, Ev.len)
-               ELSE WellBehavedElem(Ev.s, Ev.id) /\ DevUsedElem(Ev.s, Ev.id, Ev.len)
+               ELSE (Adv \/ WellBehavedElem(Ev.s, Ev.id)) /\ DevUsedElem(Ev.s, Ev.id, Ev.len)
 TDevIdx  == /\ Is("DevIdx")
             /\ IF Has(Ev, "raw") THEN DevUsedIdxRaw(Ev.v)
-               ELSE WellBehavedIdx(Ev.v, Ev.id) /\ DevUsedIdx(Ev.v, Ev.id, Ev.wd)
+               ELSE (Adv \/ WellBehavedIdx(Ev.v, Ev.id)) /\ DevUsedIdx(Ev.v, Ev.id, Ev.wd)
 TDevAvailEvent == Is("DevAvailEvent") /\ DevAvailEvent(Ev.v)
 TDevFlags      == Is("DevFlags") /\ DevUsedFlags(Ev.v)
 \* a misbehaving device overwrote driver-owned memory: the specification's memory is what the
 \* driver wrote, and nothing the driver does afterwards may depend on the difference (C07)
 TDevScribble   == Is("DevScribble") /\ UNCHANGED vars
+
+\* C07: what a misbehaving device reads after it misreported completions is its own business
+TDevBad == Is("DevBadAddress") /\ Adv /\ UNCHANGED vars
+
+\* C07: a blocking call may wait for ever for a device that never answers
+TStuck == Is("Stuck") /\ Adv /\ UNCHANGED vars
+
+\* C07: a clean panic where the driver was handed a completion it has no chain for
+TPanic == Is("Panic") /\ PopPanic
 
 \* Quiescent-to-quiescent fast-forward: the harness ran the real queue through add/complete/pop
 \* cycles without recording them (to reach interesting places of the 16-bit index space).  Only
@@ -116,16 +127,16 @@ TSkip == /\ Is("Skip")
 Other ==
   \/ TReset \/ TInitLinks
   \/ TAddCall \/ TShare \/ TStore \/ TFence \/ TAddRet
-  \/ TPopCall \/ TUnshare \/ TPopRet
+  \/ TPopCall \/ TUnshare \/ TPopRet \/ TPanic \/ TStuck
   \/ TQuery \/ TSdnCall \/ TSdnRet
   \/ TSkip
-  \/ TDevTake \/ TDevElem \/ TDevIdx \/ TDevAvailEvent \/ TDevFlags \/ TDevScribble
+  \/ TDevTake \/ TDevElem \/ TDevIdx \/ TDevAvailEvent \/ TDevFlags \/ TDevScribble \/ TDevBad
 
 \* device steps may fall between should_notify and the notification (the device runs concurrently)
-DevOnly == TDevTake \/ TDevElem \/ TDevIdx \/ TDevAvailEvent \/ TDevFlags \/ TDevScribble
+DevOnly == TDevTake \/ TDevElem \/ TDevIdx \/ TDevAvailEvent \/ TDevFlags \/ TDevScribble \/ TDevBad
 
 TraceNext ==
-  \/ pn # "must" /\ Other /\ pn' = (IF pn = "mustnot" /\ Rec[l].e \in {"DevTake", "DevElem", "DevIdx", "DevAvailEvent", "DevFlags", "DevScribble"} THEN "mustnot" ELSE "free")
+  \/ pn # "must" /\ Other /\ pn' = (IF pn = "mustnot" /\ Rec[l].e \in {"DevTake", "DevElem", "DevIdx", "DevAvailEvent", "DevFlags", "DevScribble", "DevBadAddress"} THEN "mustnot" ELSE "free")
   \/ pn = "must" /\ DevOnly /\ pn' = "must"
   \/ pn # "must" /\ TSN /\ pn' = NotifyVerdict
   \/ pn # "mustnot" /\ TNotify /\ pn' = "free"
